@@ -31,11 +31,13 @@ const ORIG_CLASSES: &[&str] = &[
     "é.Ünï",
     "com.example.Foo$$ExternalSyntheticLambda0",
     "x.y.Z$1",
+    "com.ex$ample.Outer$Gen.Main$$Lambda1",
+    "p$.Q",
 ];
 const OBF_METHODS: &[&str] = &["a", "b", "m", "<init>", "a$b", "é"];
 const ORIG_METHODS: &[&str] = &["run", "call", "<init>", "lambda$x$0", "get", "é", "doWork"];
 const TYPES: &[&str] = &["void", "int", "java.lang.String", "int[]", "p.Q$R", "é"];
-const ARGS: &[&str] = &["", "int", "int,long", "java.lang.String", "p.Q[],int", "é"];
+const ARGS: &[&str] = &["", "int", "int,long", "java.lang.String", "p.Q[],int", "é", "p.Q$R,java.lang.String"];
 const FILES: &[&str] = &["Foo.kt", "Bar.java", "R8$$SyntheticClass", "é.kt", "a b.kt"];
 
 pub fn line_number(rng: &mut Rng, wild: bool) -> u128 {
@@ -119,12 +121,16 @@ pub fn mapping(rng: &mut Rng, cfg: &MapCfg) -> Vec<u8> {
         push(&mut out, rng, "# compiler_version: 1.2.3");
         push(&mut out, rng, "# min_api: 15");
     }
+    let mut used: Vec<&str> = vec![];
     for _ in 0..nclasses {
         if cfg.noise && rng.chance(1, 5) {
             let n = rng.pick(NOISE);
             push(&mut out, rng, n);
         }
-        let obf_class = rng.pick(OBF_CLASSES);
+        // one class in five re-declares an obfuscated name used by an earlier block (the last
+        // declaration wins everywhere)
+        let obf_class = if !used.is_empty() && rng.chance(1, 5) { rng.pick(&used) } else { rng.pick(OBF_CLASSES) };
+        used.push(obf_class);
         let line = format!("{} -> {}:", rng.pick(ORIG_CLASSES), obf_class);
         push(&mut out, rng, &line);
         if rng.chance(1, 3) {
@@ -658,11 +664,24 @@ pub fn ladder(rng: &mut Rng, max: usize) -> usize {
 /// every line with its own range: file order inside a name group is observable
 pub fn mapping_big_class(rng: &mut Rng) -> Vec<u8> {
     let n = if rng.chance(1, 3) { ladder(rng, 300).max(21) } else { rng.range(25, 80) };
-    let names = ["a", "b", "c", "zz", "a$1"];
+    let all = ["a", "b", "c", "zz", "a$1"];
+    // one to five names: with few names a single name gets dozens of entries
+    let names = &all[..rng.range(1, 5)];
+    // the ranges in ascending, descending or shuffled file order (nothing promises sorted ranges)
+    let mut slots: Vec<usize> = (0..n).collect();
+    match rng.below(3) {
+        0 => {}
+        1 => slots.reverse(),
+        _ => {
+            for i in (1..n).rev() {
+                slots.swap(i, rng.below(i + 1));
+            }
+        }
+    }
     let mut out = String::from("com.example.Big -> o.a:\n");
     for k in 0..n {
-        let obf = rng.pick(&names);
-        let start = 10 * k + 1;
+        let obf = rng.pick(names);
+        let start = 10 * slots[k] + 1;
         if rng.chance(1, 4) {
             // no range: applies to every line, so its position among the entries of `obf` is observable
             out.push_str(&format!("    void n{}({}) -> {}\n", k, rng.pick(&["", "int"]), obf));
